@@ -277,6 +277,32 @@ def r5_stdout(run, F):
                "option mapping must be the identity: %s" % rows, sample=rows)
 
 
+def r6_colour_filtered(run, F):
+    """--color=never reaches text that penne colours itself only through the filtered `Colors` struct
+    (Option<Color>, None when colour is off): no `.fg()` / `.bg()` may be given a raw ariadne::Color."""
+    n = 0
+    for p, b in F.lib.bodies.items():
+        if "hir" not in b or not F.rel(b["file"]).startswith("src/alpha/"):
+            continue
+        for c in hirq.calls(b["hir"]):
+            if c.get("k") == "MethodCall" and c.get("name") in ("fg", "bg") and str(c.get("def", "")).startswith("ariadne::"):
+                a = hirq.unwrap_trivial(c["a"][0])
+                ty = F.lib.types[a["t"]] if a.get("t") is not None else "?"
+                n += 1
+                ok = ty.replace(" ", "").startswith("std::option::Option<ariadne::Color>")
+                if not ok or n <= 1:
+                    run.ob("R6-COLOUR-FILTERED", "%s|%s" % (b["npath"].split("::")[-1], hirq.local_name_of(a) or a.get("name") or a.get("res")), ok, F.where(b, c),
+                           "text coloured by penne itself must take its colour from the filtered Colors (Option<Color>); argument type %s" % ty)
+    run.ob("R6-COLOUR-FILTERED", "sites", n >= 40, "src/alpha/error.rs", "%d fg()/bg() call sites checked" % n)
+    cn = [b for p, b in F.lib.bodies.items() if p.startswith("<alpha::error::Colors as std::convert::From<")]
+    run.require(len(cn) == 1, "impl From<Config> for Colors not found")
+    ok = False
+    for path, node in hirq.constructs(cn[0]["hir"]):
+        if hirq.short(path).endswith("Colors") and node.get("k") == "Struct":
+            ok = all(hirq.unwrap_trivial(f["e"]).get("k") == "MethodCall" and hirq.unwrap_trivial(f["e"]).get("name") == "filter" for f in node["fields"])
+    run.ob("R6-COLOUR-FILTERED", "Colors::from", ok, F.where(cn[0]), "every field of Colors is config.filter(<constant>)")
+
+
 def check(run):
     F = run.facts("B")
     r1_status(run, F)
@@ -284,3 +310,4 @@ def check(run):
     r3_backend(run, F)
     r4_outdir(run, F)
     r5_stdout(run, F)
+    r6_colour_filtered(run, F)
